@@ -4,4 +4,5 @@ let lookup (p : string) : Model.sexp -> Model.sexp =
   | "c15" -> Model.run_c15
   | "c02" -> Model.run_c02
   | "c14" -> Model.run_c14
+  | "c07" -> Model.run_c07
   | _ -> failwith ("unknown property " ^ p)
